@@ -25,6 +25,9 @@ CHECKS = {
  "C09": dict(technique="TLA+ specs SnfSteps (elementary-operation state machine with invariant T = P A Q, P Pi = I, Q Qi = I, explored by TLC over all small inputs and operation sequences) and SNF (relational result contract incl. gcd-of-minors definition); recorded snf calls over 11 rings x 7 flag subsets validated by Trace_SNF",
              text="TLC checks the design (each elementary operation preserves the transform invariant; the diagonal fix-up identity) and that the result contract determines the Smith form on complete small domains; every recorded call of the real routine (planted invariant factors, rank-deficient, zero-dimensional, entries to 10^100/10^300, all flag subsets, deadline) is validated against the contract with exact limb arithmetic.",
              note="Trusted: TLC, Rings/Matrices libraries. Termination is observed with a 30 s deadline per call (normal: milliseconds).", design="§3 C09"),
+ "C10": dict(technique="TLA+ spec LLL (HNF and LLL-reducedness contracts with Gram determinants defined from first principles; design-level LLL step machine model-checked from every small basis: lattice preserved, potential decreases, termination, result reduced); recorded lll / lll_hnf calls over Z, Z[i], Z[w] validated by Trace_LLL",
+             text="TLC runs the LLL step machine to completion from every 2x2/2x3 basis with small entries (invariants, potential decrease, termination, reducedness of the result), and validates every recorded result of the real lll_hnf and lll (any shape and rank for HNF, entries up to hundreds of digits, all transform-flag combinations) against the contracts using exact limb arithmetic.",
+             note="Trusted: TLC, Matrices/Rings libraries. No step hooks: the internal det/lambda updates are checked only through the results. Termination by a 30 s deadline per call.", design="§3 C10"),
 }
 PENDING = "not yet bound to the specification in this round (see DESIGN.md section 3 for the planned spec and binding)"
 m = {
